@@ -137,10 +137,25 @@ def check_graph(res, case):
     n = len(kinds)
     res.evals += 1
     key = f'C17/topo/{kinds}/{"".join(f"{d}{r}{p}" for d, r, p in edges)}{"s" if shift else ""}' if 'big' not in case else f'C17/topo/big-{case["big"][0]}-{case["big"][1]}'
+    if case.get('prev_edges') is not None: key += '/rewired'
     import sys
     if sys.getrecursionlimit() < 20000: sys.setrecursionlimit(20000)
     try:
-        c, nodes = build_graph(kinds, edges, shift)
+        if case.get('prev_edges') is not None:
+            # the same circuit object first holds another wiring and answers all queries for it; then it is re-wired in place through the
+            # public API (all lines removed, the same number of new lines added): answers must describe the present graph
+            from kyupy.circuit import Line
+            c, nodes = build_graph(kinds, [tuple(e) for e in case['prev_edges']], False)
+            list(c.topological_order()); list(c.topological_order_with_level()); list(c.topological_line_order()); list(c.reversed_topological_order())
+            list(c.fanin([nodes[-1]]))
+            for l in list(c.lines)[::-1]: l.remove()
+            nextpin = [0] * n
+            if shift and edges: nextpin[edges[0][0]] = 1
+            for d, r, p in edges:
+                Line(c, (nodes[d], nextpin[d]), (nodes[r], p)); nextpin[d] += 1
+            res.count('rewired_in_place')
+        else:
+            c, nodes = build_graph(kinds, edges, shift)
         n_in = [0] * n; n_out = [0] * n
         for d, r, p in edges: n_in[r] += 1; n_out[d] += 1
         src = [i for i in range(n) if n_in[i] == 0 or is_state(kinds[i])]
@@ -361,11 +376,16 @@ def run_task(task):
     res = common.Result()
     if task[0] in ('graphs', 'graphs4x'):
         n, L, kinds = task[1], task[2], task[3]
+        last_by_size = {}
         for gi, (edges, shift) in enumerate(gen_graphs(n, L, kinds)):
             if task[0] == 'graphs4x':
                 if len(edges) != 4 or gi % task[5] != task[4]: continue
             case = {'kind': 'graph', 'kinds': kinds, 'edges': [list(e) for e in edges], 'shift': shift}
             check_graph(res, case)
+            ne = len(edges)
+            if ne and last_by_size.get(ne) is not None and gi % 7 == 0:
+                check_graph(res, dict(case, prev_edges=last_by_size[ne]))
+            last_by_size[ne] = [list(e) for e in edges]
             if len(res.samples) < 1 and len(edges) >= 2: res.samples.append(case)
     elif task[0] == 'big':
         for K in ((300,) if task[2] == 'quick' or task[1] in ('ladder',) else (300, 70000 if task[1] == 'grid' else 1000)):
@@ -396,7 +416,7 @@ def replay(case):
 
 
 def finish(agg, tier):
-    need = ['graphs_with_unconnected_inpin', 'graphs_with_unconnected_outpin', 'nested_results', 'big_graphs']
+    need = ['graphs_with_unconnected_inpin', 'graphs_with_unconnected_outpin', 'nested_results', 'big_graphs', 'rewired_in_place']
     missing = [k for k in need if not agg.counters.get(k)]
     if missing: raise common.HarnessError(f'vacuity guard: {missing} zero')
     return {}
